@@ -213,9 +213,10 @@ def tag(case, f):
     narrow = any(d.kind in 'iu' and d.itemsize < 8 for d in dts) or any(d.kind == 'b' for d in dts)
     # (a) sum/prod/cumsum/cumprod over narrow ints or bools in a multi-block frame: the output array takes the
     # row dtype, so the value wraps (int8) or stays Boolean, where NumPy on the column alone widens to int64
-    if f.kind == 'value' and fn in ('sum', 'prod', 'cumsum', 'cumprod') and narrow and len(blks) > 1:
+    # (axis 0 only: along axis 1 sum/prod are evaluated on the consolidated array and are correct)
+    if f.kind == 'value' and fn in ('sum', 'prod', 'cumsum', 'cumprod') and narrow and len(blks) > 1 and case['axis'] == 0:
         return 'narrow-output-dtype-in-multiblock-sum-prod'
-    if f.kind.startswith('raised:OverflowError') and fn in ('sum', 'prod') and narrow:
+    if f.kind.startswith('raised:OverflowError') and fn in ('sum', 'prod') and narrow and case['axis'] == 0:
         return 'narrow-output-dtype-in-multiblock-sum-prod'
     # (f) cumulative operations run on the consolidated values
     if fn in ('cumsum', 'cumprod') and f.kind == 'value' and len({d for d in dts}) > 1:
